@@ -23,7 +23,7 @@ from __future__ import annotations
 
 import ast
 
-from ..astutil import attr_chain, bind_args, callee_name, calls, is_name, names_in, text
+from ..astutil import call_recv, attr_chain, bind_args, callee_name, calls, is_name, names_in, text
 from ..core import Result
 from ..model import AnchorMissing, Repo, fold_str, walk_no_nested
 
@@ -40,7 +40,7 @@ WHOLE = "<whole-match>"
 
 def _group_of_group_call(repo, mod, e):
     """match.group() -> WHOLE ; match.group(X) -> folded X ; else None"""
-    if isinstance(e, ast.Call) and callee_name(e) == "group" and isinstance(e.func, ast.Attribute) and is_name(e.func.value, "match"):
+    if isinstance(e, ast.Call) and callee_name(e) == "group" and isinstance(e.func, ast.Attribute) and is_name(call_recv(e), "match"):
         if not e.args:
             return WHOLE
         return fold_str(repo, mod, e.args[0], 0)
@@ -52,7 +52,7 @@ def _start_expr(repo, mod, e):
     base = None
     if isinstance(e, ast.BinOp) and isinstance(e.op, ast.Add):
         base, e = text(e.left), e.right
-    if isinstance(e, ast.Call) and callee_name(e) in ("start", "end") and isinstance(e.func, ast.Attribute) and is_name(e.func.value, "match"):
+    if isinstance(e, ast.Call) and callee_name(e) in ("start", "end") and isinstance(e.func, ast.Attribute) and is_name(call_recv(e), "match"):
         g = WHOLE if not e.args else fold_str(repo, mod, e.args[0], 0)
         return base, callee_name(e), g
     return base, None, None
@@ -236,8 +236,8 @@ def run(repo: Repo) -> Result:
                     keys = [k.value for k in call.keywords if k is not parent] + list(call.args)
                 elif isinstance(parent, ast.Tuple):
                     keys = [e for e in parent.elts if e is not c]
-                elif isinstance(parent, ast.Call) and callee_name(parent) in ("append", "add") and isinstance(parent.func.value, ast.Subscript):
-                    keys = [parent.func.value.slice]
+                elif isinstance(parent, ast.Call) and callee_name(parent) in ("append", "add") and isinstance(call_recv(parent), ast.Subscript):
+                    keys = [call_recv(parent).slice]
                 else:
                     st = c
                     while id(st) in pm and not isinstance(st, ast.stmt):
